@@ -230,6 +230,10 @@ def finish(rep, level, explanation, checker_cmd):
         (listed if hit else unlisted).append((v, hit))
     wall = time.time() - rep.t0
     exit_code = 0
+    if rep.inconclusive:
+        # modules with a frozen table of clauses outside their claim remove those before this point
+        # (accept_inconclusive); whatever is left is an obligation nobody decided: never a pass
+        rep.broken.append("%d obligation(s) could not be decided (first: %s %s)" % (len(rep.inconclusive), rep.inconclusive[0]["rule"], rep.inconclusive[0]["what"]))
     if rep.broken:
         exit_code = 2
     if unlisted:
